@@ -233,6 +233,27 @@ func runHist(c *vt.Ctx, kind string, ops []fsx.Op) *vt.Deviation {
 				return mk("answers", fmt.Sprintf("the answers differ: Linux-typed %s, Windows-typed %s", ol.Val, wv))
 			}
 		}
+		if (o.K == "Stat" || o.K == "Lstat") && isOK(ol) && o.P != "" {
+			// both separators are valid under Windows: the same path written with '/' names the same
+			// entry, and the entry's name is the one the Linux-typed file system reports
+			wp := fsx.Retarget(o, true).P
+			fp := strings.ReplaceAll(wp, `\`, "/")
+			ls, ws := lin.Stat, win.Stat
+			if o.K == "Lstat" {
+				ls, ws = lin.Lstat, win.Lstat
+			}
+			il, el := ls(o.P)
+			i1, e1 := ws(wp)
+			i2, e2 := ws(fp)
+			if el == nil && e1 == nil && (e2 != nil || i1.Name() != i2.Name() || i2.Name() != il.Name()) {
+				nm := "-"
+				if e2 == nil {
+					nm = i2.Name()
+				}
+				return mk("slash-spelling", fmt.Sprintf("%s(%q) names %q, %s(%q) gives %q, %v; the Linux-typed entry is %q", o.K, wp, i1.Name(), o.K, fp, nm, e2, il.Name()))
+			}
+			c.Label("slash-spelling-compared")
+		}
 		sl, sw := snapshot(lin, kind, false), snapshot(win, kind, true)
 		if p, f, l, r, same := fsx.Diff(sl, sw); !same {
 			return mk("isomorphic", fmt.Sprintf("trees differ at %s (%s): Linux-typed %q, Windows-typed %q", p, f, l, r))
